@@ -366,6 +366,53 @@ def r10(ctx):
     whole_contig_task_unwindowed(ctx, 'C08-R10')
 
 
+@rule('C08', 'C08-R11', 'a contig restriction of the caller restricts the tiling: what tag_multiome_multi_processing reads from molecule_iterator_args (the contig) is read before the '
+                        'entries are removed from the dictionary - read after the removal the restriction is silently gone and every contig is tagged')
+def r11(ctx):
+    f = ctx.fn(BTM, 'tag_multiome_multi_processing')
+    mod = ctx.ix.module(BTM)
+
+    def top_index(node):
+        return next((k for k, s_ in enumerate(f.body) if any(x is node for x in ast.walk(s_))), None)
+    removed = {}       # key -> index of the top-level statement that removes it
+    for n_ in ast.walk(f):
+        keys = []
+        if isinstance(n_, ast.Delete):
+            for t_ in n_.targets:
+                if isinstance(t_, ast.Subscript) and src(t_.value) == 'molecule_iterator_args':
+                    keys.append(t_.slice)
+        elif isinstance(n_, ast.Call) and isinstance(n_.func, ast.Attribute) and n_.func.attr == 'pop' and src(n_.func.value) == 'molecule_iterator_args' and n_.args:
+            keys.append(n_.args[0])
+        for k_ in keys:
+            vals = []
+            if isinstance(k_, ast.Constant):
+                vals = [k_.value]
+            elif isinstance(k_, ast.Name):
+                # the variable of a loop over a literal list of keys
+                for l_ in ast.walk(f):
+                    if isinstance(l_, ast.For) and isinstance(l_.target, ast.Name) and l_.target.id == k_.id and isinstance(l_.iter, (ast.List, ast.Tuple)) and any(x is n_ for x in ast.walk(l_)):
+                        vals = [e.value for e in l_.iter.elts if isinstance(e, ast.Constant)]
+            for v_ in vals:
+                ti = top_index(n_)
+                if ti is not None:
+                    removed[v_] = min(removed.get(v_, ti), ti)
+    reads = []
+    for n_ in ast.walk(f):
+        key = None
+        if isinstance(n_, ast.Subscript) and isinstance(n_.ctx, ast.Load) and src(n_.value) == 'molecule_iterator_args' and isinstance(n_.slice, ast.Constant):
+            key = n_.slice.value
+        elif isinstance(n_, ast.Call) and isinstance(n_.func, ast.Attribute) and n_.func.attr == 'get' and src(n_.func.value) == 'molecule_iterator_args' and n_.args and isinstance(n_.args[0], ast.Constant):
+            key = n_.args[0].value
+        if key is not None and key in removed:
+            reads.append((key, n_, top_index(n_)))
+    ctx.need('C08-R11', len(removed), 1, 'entries removed from molecule_iterator_args')
+    late = [(k_, n_) for k_, n_, ti in reads if ti is not None and ti > removed[k_]]
+    ctx.emit('C08-R11', not late, BTM, late[0][1] if late else f, f'{len(reads)} read(s) of removed entries ({sorted({k_ for k_, _, _ in reads})}) all come before the removal' if not late else
+             f'`{src(late[0][1])[:60]}` is read after `{late[0][0]}` was removed from molecule_iterator_args: the value the caller gave is never seen, the default (every contig) is used',
+             key='restriction-read-before-removal', witness={'molecule_iterator_args': {late[0][0]: 'chrB'}, 'whitelist': 'all contigs'} if late else None,
+             what='tag_multiome_multi_processing: the contig restriction is read after it was removed', nontrivial=bool(reads))
+
+
 META = {
     'text': ('Decides: the per-job ownership test equals "other contig or site outside the half-open [start, end)" on every ordering, and the '
              'tested site is the molecule cut site; the early stop compares the site with the FETCH end; reads are fetched from the fetch window; '
